@@ -402,6 +402,30 @@ func init() {
 	replayers["c04idx"] = c04Idx
 	replayers["c04cross"] = c04Cross
 	replayers["c04cpq"] = c04Cpq
+	// c04orient <G:loops> <probes>: P = PolygonFromOrientedLoops(loops), Q = the same from the reversed loops; per probe "PQ" (T/F each)
+	replayers["c04orient"] = func(a []string) []string {
+		k := strings.Index(a[0], ":")
+		loops := c04ParseLoops(a[0][k+1:])
+		mk := func(rev bool) *s2.Polygon {
+			var ls []*s2.Loop
+			for _, l := range loops {
+				v := c04Copy(l)
+				if rev {
+					for i, j := 0, len(v)-1; i < j; i, j = i+1, j-1 {
+						v[i], v[j] = v[j], v[i]
+					}
+				}
+				ls = append(ls, s2.LoopFromPoints(v))
+			}
+			return s2.PolygonFromOrientedLoops(ls)
+		}
+		P, Q := mk(false), mk(true)
+		var out []string
+		for _, p := range pPts(a[1]) {
+			out = append(out, bs(P.ContainsPoint(p))+bs(Q.ContainsPoint(p)))
+		}
+		return out
+	}
 	replayers["c04cpqrm"] = c04CpqRm
 	generators["c04"] = genC04
 	generators["c06idx"] = genC06Idx
@@ -893,6 +917,9 @@ func genC04(g *G) {
 		}
 	}
 	for it := 0; it < g.n; it++ {
+		if it%6 == 0 {
+			g.c04Oriented()
+		}
 		mine := true
 		switch k := r.Intn(20); {
 		case k < 9: // one loop, every path
@@ -1209,3 +1236,59 @@ func genC06Idx(g *G) {
 }
 
 var _ = s1.Angle(0)
+
+// c04Oriented emits one c04orient line: ORIENTED loops (interior on the left) given to PolygonFromOrientedLoops, and the same
+// loops reversed: the two polygons must partition the sphere.  Families: a disc with a hole (hole given clockwise); two
+// disjoint discs; a band between two parallel circles around a random axis of half-width 1e-16 .. 0.3 rad (both loops then have
+// a turning angle of about zero and the larger side is decided by the tie rule "contains the origin" — seeded change C04_7);
+// a single loop within 1e-15 of a great circle.
+func (g *G) c04Oriented() {
+	r := g.rng
+	c := g.c04Center()
+	e1 := s2.Point{Vector: c.Ortho().Normalize()}
+	e2 := s2.Point{Vector: c.Cross(e1.Vector).Normalize()}
+	circle := func(h float64, n int, cw bool) []s2.Point { // the parallel at height h over the plane orthogonal to c
+		var v []s2.Point
+		rho := math.Sqrt(math.Max(0, 1-h*h))
+		for i := 0; i < n; i++ {
+			t := 2 * math.Pi * float64(i) / float64(n)
+			v = append(v, s2.Point{Vector: c.Mul(h).Add(e1.Mul(rho * math.Cos(t))).Add(e2.Mul(rho * math.Sin(t))).Normalize()})
+		}
+		if cw {
+			for i, j := 0, len(v)-1; i < j; i, j = i+1, j-1 {
+				v[i], v[j] = v[j], v[i]
+			}
+		}
+		return v
+	}
+	n := 4 + r.Intn(12)
+	var loops [][]s2.Point
+	switch r.Intn(5) {
+	case 0: // disc with a hole
+		loops = [][]s2.Point{circle(0.9, n, false), circle(0.97, n, true)}
+	case 1: // two disjoint discs (around c and around -c)
+		loops = [][]s2.Point{circle(0.9, n, false), circle(-0.8, n, true)}
+	case 2: // a single loop next to a great circle
+		loops = [][]s2.Point{circle((r.Float()*2-1)*math.Pow(10, -16+14*r.Float()), n, r.Bool())}
+	default: // band around the great circle orthogonal to c: upper boundary clockwise, lower boundary counter-clockwise
+		w := math.Pow(10, -16+15.5*r.Float())
+		h0 := (r.Float()*2 - 1) * w
+		loops = [][]s2.Point{circle(h0+w, n, true), circle(h0-w, n, false)}
+		if r.Bool() {
+			loops[0], loops[1] = loops[1], loops[0]
+		}
+	}
+	for _, l := range loops {
+		if !c04Valid(l) {
+			return
+		}
+	}
+	if len(loops) > 1 && !c04LoopsDisjoint(loops) {
+		return
+	}
+	probes := []s2.Point{c, {Vector: c.Mul(-1)}, e1, e2, s2.OriginPoint(), {Vector: s2.OriginPoint().Mul(-1)}}
+	for k := 0; k < 6; k++ {
+		probes = append(probes, g.c04Center())
+	}
+	g.emit("c04orient", c04LoopsSpec("G", loops), ptsTok(probes))
+}
